@@ -185,14 +185,9 @@ Definition put_event (q : nat) (e : event) (s : state) : state :=
      queue.shutdown()       -- sets the flag, completes every pending getter *)
 Definition kill_q (q : nat) (s : state) : state :=
   if q_shut (heap s q) then s
-  else
-    let s1 := put_event q EKill s in
-    let Q := heap s1 q in
-    let s2 := upd_queue q (fun _ => mkQ (q_items Q) true None) s1 in
-    match q_getter Q with
-    | None => s2
-    | Some g => wake g s2
-    end.
+  else upd_queue q (fun Q => mkQ (q_items Q) true None) (put_event q EKill s).
+(* (shutdown() would complete every pending getter: the put just before has
+   already taken the only one.) *)
 
 (* ------------------------------------------------------------- registry.py *)
 
@@ -290,23 +285,29 @@ Section WithOrd.
       (set_rtasks (fupd (rtasks s) k (Some tid))
         (set_nt (S tid) (set_tasks (fupd (tasks s) tid (mkT k None TNew false false)) s))).
 
+  (* GHOST: what the harness's preparer does: it notes the generation of every
+     declared dependency ([seen_now], evaluated where the preparer runs) and
+     counts one more generation of the resource itself.  The count is ghost
+     state that nothing in the code reads and the harness reads only between
+     operations, so the model bumps it at the END of the atomic section in
+     which the (re-)preparation or deletion happens, right after the
+     subscribers were notified (this keeps the pending-event invariant true at
+     every intermediate point). *)
+  Definition seen_now (deps : list nat) (s : state) : list (nat * nat) :=
+    map (fun d => (d, gens s d)) deps.
+  Definition bump (k : nat) (s : state) : state :=
+    set_gens (fupd (gens s) k (S (gens s k))) s.
+
   (* _handle_notifications; [with_preparer] = the `preparer` argument is given *)
   Definition handle_notifications (k : nat) (deps : list nat) (started finished : nat)
              (with_preparer : bool) (s : state) : state :=
     let s1 := set_ptimes (fupd (ptimes s) k (Some started)) s in
     let s2 := subscribe_only_to k deps s1 in
-    let s3 := notify k finished s2 in
+    let s3 := bump k (notify k finished s2) in
     match deps, with_preparer, rtasks s3 k with
     | _ :: _, true, None => create_task k s3
     | _, _, _ => s3
     end.
-
-  (* what the harness's preparer does: note the generation of every declared
-     dependency, then count one more generation of the resource itself *)
-  Definition seen_now (deps : list nat) (s : state) : list (nat * nat) :=
-    map (fun d => (d, gens s d)) deps.
-  Definition bump (k : nat) (s : state) : state :=
-    set_gens (fupd (gens s) k (S (gens s k))) s.
 
   Definition raise_bound (k : nat) (deps : list nat) (s : state) : state :=
     set_bound (Nat.max (bound s) (S (list_max (k :: deps)))) s.
@@ -324,7 +325,7 @@ Section WithOrd.
       let started := clock s1 in
       let s2 := snd (register k s1) in
       let seen := seen_now deps s2 in
-      let s3 := tick (bump k s2) in
+      let s3 := tick s2 in
       let finished := clock s3 in
       let s4 := set_cache (fupd (cache s3) k (Some (mkC v deps seen))) s3 in
       handle_notifications k deps started finished true s4.
@@ -351,9 +352,9 @@ Section WithOrd.
     | Some _ =>
         let s1 := tick s in
         let deleted_at := clock s1 in
-        let s2 := bump k (set_cache (fupd (cache s1) k None) s1) in
+        let s2 := set_cache (fupd (cache s1) k None) s1 in
         let s3 := kill_resource k s2 in
-        let s4 := deregister k deleted_at s3 in
+        let s4 := bump k (deregister k deleted_at s3) in
         match rtasks s4 k with
         | None => s4
         | Some tid => cancel tid (set_rtasks (fupd (rtasks s4) k None) s4)
@@ -368,7 +369,7 @@ Section WithOrd.
         let s1 := tick s in
         let started := clock s1 in
         let seen := seen_now (c_deps e) s1 in
-        let s2 := tick (bump k s1) in
+        let s2 := tick s1 in
         let finished := clock s2 in
         let s3 := set_cache (fupd (cache s2) k (Some (mkC (c_version e) (c_deps e) seen))) s2 in
         handle_notifications k (c_deps e) started finished false s3
